@@ -50,7 +50,7 @@ Theorem framing_consistent : forall (responses : N -> bytes),
   (forall c s ws, self_delimited (expected c s ws) = false -> persistent c = false) /\
   (forall qs, snd (run_conn responses (map (fun q => (q_cfg q, q_pre q ++ map Write (q_ws q))) qs))
               = existsb (fun q => negb (persistent (q_cfg q))) qs).
-Proof. intro responses. split; [exact close_delimited_not_persistent|exact (run_conn_closed responses)]. Qed.
+Proof. exact framing_consistent_all. Qed.
 Print Assumptions framing_consistent.
 
 (** invariant over EVERY history of API calls (writes included, in any order): header names are unique canonical
@@ -63,7 +63,7 @@ Theorem header_table_invariant : forall (responses : N -> bytes) c ops,
                     (map lower (fst e) = cl_lname -> fst e = CL_NAME) /\
                     (map lower (fst e) = te_lname -> fst e = TE_NAME)) /\
                    Forall (fun v => no_crlf v = true) (snd e)) t.
-Proof. intros responses c ops. exact (run_ops_inv responses c ops (init c) (init_inv c)). Qed.
+Proof. exact table_invariant_all. Qed.
 Print Assumptions header_table_invariant.
 
 (** invalid names are refused when set, and a refused call has no effect *)
@@ -85,11 +85,7 @@ Theorem headers_exactly_those_set : forall (responses : N -> bytes) c s name,
      let s' := fst (step responses c s (AddRaw name val)) in
      tbl_get k (s_tbl s') = tbl_get k (s_tbl s) ++ [san v] /\
      forall k', beq k' k = false -> tbl_get k' (s_tbl s') = tbl_get k' (s_tbl s)).
-Proof.
-  intros responses c s name Hinv k En. split.
-  - intros vals vs Ev. exact (set_then_get responses c s name vals k vs Hinv En Ev).
-  - intros val v Ev. exact (add_then_get responses c s name val k v Hinv En Ev).
-Qed.
+Proof. exact set_add_exact. Qed.
 Print Assumptions headers_exactly_those_set.
 
 (** sanitisation: no CR / LF survives in a header value, and no CR / LF / ";" in a cookie component; an accepted
@@ -99,10 +95,7 @@ Theorem sanitised_values_cannot_break_lines :
   (forall v, forallb (fun c => negb (is_crlf_byte c) && negb (c =? 59)) (csan v) = true) /\
   (forall ck b, cookie_bytes ck = Good b -> no_crlf b = true) /\
   (forall v, san (san v) = san v).
-Proof.
-  repeat split; [exact san_no_crlf|exact csan_clean| |exact san_idem].
-  intros ck b H. pose proof (cookie_bytes_clean ck) as C. rewrite H in C. exact C.
-Qed.
+Proof. exact sanitisation_all. Qed.
 Print Assumptions sanitised_values_cannot_break_lines.
 
 (** finding F6 (the code before the repair): with the reason phrase copied verbatim, a reason containing CRLF
